@@ -295,4 +295,89 @@ func init() {
 		sort.Strings(entries)
 		return res + " " + hx(fn) + " " + showList(entries) + " " + showList(events) + " " + hx(text)
 	}
+	// uploadself kind op variant (name content)*: the destination IS (or leads back to) the upload's own directory -
+	// variant "same": Copy / Move into the directory the control file lives in; "symlink": into a symbolic link to that
+	// directory; "hardlinks": into a directory that already holds hard links to the upload's files (a mirror made with
+	// cp -l).  Reports the error flag, the handle's Filename and every regular file of S and D with its content.
+	ops["uploadself"] = func(a []string) string {
+		kind, op, variant := arg(a, 0), arg(a, 1), arg(a, 2)
+		root, err := ioutil.TempDir("/var/tmp", "verif-uploadself-")
+		if err != nil {
+			return "harness-error"
+		}
+		defer os.RemoveAll(root)
+		src, dst := filepath.Join(root, "S"), filepath.Join(root, "D")
+		os.MkdirAll(src, 0755)
+		var listing strings.Builder
+		names := []string{}
+		for i := 3; i+1 < len(a); i += 2 {
+			name, content := a[i], a[i+1]
+			ioutil.WriteFile(filepath.Join(src, name), []byte(content), 0644)
+			names = append(names, name)
+			sum := fmt.Sprintf("%x", md5.Sum([]byte(content)))
+			if kind == "dsc" {
+				fmt.Fprintf(&listing, " %s %d %s\n", sum, len(content), name)
+			} else {
+				fmt.Fprintf(&listing, " %s %d misc optional %s\n", sum, len(content), name)
+			}
+		}
+		ctlname := "x_1.0-1." + kind
+		text := "Format: 1.0\nSource: x\nVersion: 1.0-1\nMaintainer: A B <a@b.c>\nFiles:\n" + listing.String()
+		ioutil.WriteFile(filepath.Join(src, ctlname), []byte(text), 0644)
+		names = append(names, ctlname)
+		dest := src
+		switch variant {
+		case "symlink":
+			dest = filepath.Join(root, "L")
+			os.Symlink(src, dest)
+		case "hardlinks":
+			dest = dst
+			os.MkdirAll(dst, 0755)
+			for _, n := range names {
+				os.Link(filepath.Join(src, n), filepath.Join(dst, n))
+			}
+		}
+		var run func() error
+		var filename func() string
+		if kind == "dsc" {
+			d, err := control.ParseDscFile(filepath.Join(src, ctlname))
+			if err != nil {
+				return "parse-error"
+			}
+			filename = func() string { return d.Filename }
+			run = func() error { return d.Copy(dest) }
+			if op == "move" {
+				run = func() error { return d.Move(dest) }
+			}
+		} else {
+			c, err := control.ParseChangesFile(filepath.Join(src, ctlname))
+			if err != nil {
+				return "parse-error"
+			}
+			filename = func() string { return c.Filename }
+			run = func() error { return c.Copy(dest) }
+			if op == "move" {
+				run = func() error { return c.Move(dest) }
+			}
+		}
+		res := "ok"
+		if e := run(); e != nil {
+			res = "err"
+		}
+		entries := []string{}
+		for _, d := range [][2]string{{"S", src}, {"D", dst}} {
+			fis, _ := ioutil.ReadDir(d[1])
+			for _, fi := range fis {
+				b, _ := ioutil.ReadFile(filepath.Join(d[1], fi.Name()))
+				entries = append(entries, "( "+hx(d[0]+"/"+fi.Name())+" "+hx(string(b))+" )")
+			}
+		}
+		sort.Strings(entries)
+		held := "unreadable"
+		if b, err := ioutil.ReadFile(filename()); err == nil {
+			held = hx(string(b))
+		}
+		return res + " " + hx(strings.TrimPrefix(filename(), root+"/")) + " " + held + " " + showList(entries) + " " + hx(text)
+	}
+
 }
